@@ -188,6 +188,12 @@ impl MountFds {
         Ok(mount_fd)
     }
 
+    /// Verification hook (H2): number of entries in the mount-fd map.
+    #[cfg(fuse_backend_rs_verif)]
+    pub fn verif_len(&self) -> usize {
+        self.map.read().unwrap().len()
+    }
+
     // Ensure that `mount_point_path` refers to an inode with the mount ID we need
     fn validate_mount_id(
         &self,
